@@ -1,0 +1,37 @@
+//go:build verif
+
+// Contracts for package collections, checked by /verif/govc (comment-only file; no code).
+package collections
+
+// normKey: the key under which a Map stores and looks up entries (case-folded unless the map is case sensitive).
+//@ define normKey(c *Map, k string) string := ite(c.isCaseSensitive, k, lower(k))
+
+// isMatch(m, v, k, val): the match datum m is exactly (variable v, key k, value val)
+//@ define isMatch(m types.MatchData, v variables.RuleVariable, k string, val string) bool :=
+//@     typeof(m) == tag("*corazarules.MatchData") && payload(m, "*corazarules.MatchData").Variable_ == v &&
+//@     payload(m, "*corazarules.MatchData").Key_ == k && payload(m, "*corazarules.MatchData").Value_ == val
+
+// Keyed selection (C01): the result is exactly the stored entries of the normalised key, in insertion order,
+// each reported with its original-case key and its value.
+//@ func (*Map).FindString props C01,C04,C07
+//@   ensures none: key != "" && (!has(c.data, normKey(c, key)) || len(c.data[normKey(c, key)]) == 0) ==> len(result) == 0
+//@   ensures count: key != "" && has(c.data, normKey(c, key)) ==> len(result) == len(c.data[normKey(c, key)])
+//@   ensures exact: key != "" && has(c.data, normKey(c, key)) ==> (forall j int :: 0 <= j && j < len(result) ==>
+//@       isMatch(result[j], c.variable, c.data[normKey(c, key)][j].key, c.data[normKey(c, key)][j].value))
+//@   loop 1
+//@     invariant -1 <= rangeindex && rangeindex < len(e) && len(result) == len(e) && len(buf) == len(e) && base(buf) != base(result)
+//@     invariant fresh(buf) && fresh(result)
+//@     invariant forall j int :: 0 <= j && j <= rangeindex ==> isMatch(result[j], c.variable, e[j].key, e[j].value)
+
+// Names collections (ARGS_NAMES ...) select exactly like the collection they are derived from (same key folding);
+// the value reported is the original-case key.
+//@ func (*NamedCollectionNames).FindString props C01,C04,C07
+//@   requires c.collection != nil && c.collection.Map != nil
+//@   ensures none: key != "" && (!has(c.collection.Map.data, normKey(c.collection.Map, key)) || len(c.collection.Map.data[normKey(c.collection.Map, key)]) == 0) ==> len(result) == 0
+//@   ensures count: key != "" && has(c.collection.Map.data, normKey(c.collection.Map, key)) ==> len(result) == len(c.collection.Map.data[normKey(c.collection.Map, key)])
+//@   ensures exact: key != "" && has(c.collection.Map.data, normKey(c.collection.Map, key)) ==> (forall j int :: 0 <= j && j < len(result) ==>
+//@       isMatch(result[j], c.variable, c.collection.Map.data[normKey(c.collection.Map, key)][j].key, c.collection.Map.data[normKey(c.collection.Map, key)][j].key))
+//@   loop 1
+//@     invariant -1 <= rangeindex && rangeindex < len(data) && len(res) == len(data) && len(buf) == len(data) && base(buf) != base(res)
+//@     invariant fresh(buf) && fresh(res)
+//@     invariant forall j int :: 0 <= j && j <= rangeindex ==> isMatch(res[j], c.variable, data[j].key, data[j].key)
